@@ -10,7 +10,8 @@
 (* variables of Pipeline (req, stage = "Done", out, handled, validated,       *)
 (* changed, flags) - it becomes a state of this specification - and the state *)
 (* predicates of Pipeline are evaluated on it; a failing predicate is printed *)
-(* as <<"REJECT", tid, 1, name>>.  Predicates the statement of C13 does not   *)
+(* as <<"REJECT", tid, 1, name@stage>> (stage = Issue(req), the stage of the   *)
+(* model that decides the fate of the request).  Predicates the statement of C13 does not   *)
 (* demand are reported as <<"NOTE", ...>> only.                               *)
 EXTENDS Pipeline, IOUtils
 
@@ -28,7 +29,7 @@ KindOf(a) ==
   ELSE IF a.body \in {"empty", "text"} /\ StatusClass(a.status) = "error" THEN "bare"
   ELSE "none"      \* e.g. success status with a body that is neither the response nor a fault
 
-Clause(name, cond) == IF cond THEN TRUE ELSE PrintT(<<"REJECT", tid, 1, name>>)
+Clause(name, cond) == IF cond THEN TRUE ELSE PrintT(<<"REJECT", tid, 1, name \o "@" \o Issue(req)>>)
 Note(name, cond) == IF cond THEN TRUE ELSE PrintT(<<"NOTE", tid, 1, name>>)
 
 Judge ==
